@@ -394,6 +394,10 @@ pub struct Sim {
     pub panicked: bool,
     pub states: Vec<u8>,
     pub auto_forward: bool,
+    /// every host call made so far (for replays with insertions)
+    pub evlog: Vec<Ev>,
+    /// parent port identity (clock, port) after the last call
+    pub parent: (u64, u16),
 }
 
 struct QueueProvider<'a> {
@@ -512,6 +516,7 @@ pub fn bytes_list(b: &[u8]) -> String {
 }
 
 /// What the generator wants the host to do next.
+#[derive(Clone, Debug)]
 pub enum Ev {
     RecvEvent(usize, Vec<u8>, u128),
     RecvGeneral(usize, Vec<u8>),
@@ -559,6 +564,8 @@ impl Sim {
             panicked: false,
             states: vec![4; n],
             auto_forward: true,
+            evlog: Vec::new(),
+            parent: (0, 0),
         };
         let instance = sim.instance;
         let res = catch(|| {
@@ -643,6 +650,10 @@ impl Sim {
         let d = self.instance.default_ds();
         let c = self.instance.current_ds(None);
         let p = self.instance.parent_ds();
+        self.parent = (
+            u64::from_be_bytes(p.parent_port_identity.clock_identity.0),
+            p.parent_port_identity.port_number,
+        );
         let t = self.instance.time_properties_ds();
         let pt = self.instance.path_trace_ds();
         format!(
@@ -714,6 +725,7 @@ impl Sim {
             Ev::SetSlaveOnly(b) => format!("EvSetSlaveOnly {}", coq_bool(*b)),
         };
         self.events.push(ev_coq);
+        self.evlog.push(ev.clone());
 
         LOG_LOCKS.with(|c| c.set(true));
         let instance = self.instance;
